@@ -1,4 +1,5 @@
 """C19 - redis configs are unambiguous; conversions and serialisation are lossless (structural clauses)."""
+import re
 from .mcommon import calls_named, in_cycle
 from .roles import adt_of
 from .facts import strip_generics, Operand, Place
@@ -47,6 +48,66 @@ def address_signature(b, an, blocks):
             if s.kind == 'assign' and s.rv.kind == 'agg' and s.rv.j.get('ak') == 'adt' and s.rv.j['adt'].endswith('::ConnectionAddr'):
                 out.add((s.rv.j['variant'],) + tuple(tuple(sorted(x[1] for x in sources(an, op, deep=True) if x[0] == 'const' and not x[1].startswith('fn'))) for op in s.rv.ops))
     return out
+
+
+# conversions that hand their argument on unchanged (as far as the value's content goes)
+IDENTITY_CALLS = ('Clone>::clone', 'Clone::clone', 'Into>::into', 'Into::into', 'From>::from', 'From::from', 'ToOwned>::to_owned', 'ToOwned::to_owned',
+                  'Option::map', 'Option::<T>::map', 'Option::cloned', 'Option::copied', 'Option::as_ref', 'Option::as_deref', 'Deref>::deref', 'Deref::deref',
+                  'AsRef>::as_ref', 'AsRef::as_ref', 'String::as_str', 'Borrow>::borrow', 'Borrow::borrow', 'PathBuf::as_path', 'Path::to_path_buf',
+                  'IntoIterator>::into_iter', 'IntoIterator::into_iter', 'Iterator>::map', 'Iterator::map', 'Iterator>::collect', 'Iterator::collect', 'iter', 'Iterator>::cloned', 'Iterator::cloned')
+
+
+def calls_on_the_way(an, op, limit=300, prog=None, depth=0):
+    """every call / arithmetic step the value in `op` went through inside this body (field-insensitive backward closure);
+    a closure on the way (`.map(|x| ..)`) contributes the steps its return value goes through"""
+    out = set()
+    seen = set()
+    work = [op]
+    while work and len(seen) < limit:
+        o = work.pop()
+        if o.kind not in ('copy', 'move'):
+            continue
+        l = o.place.local
+        if l in seen:
+            continue
+        seen.add(l)
+        for d in an.defs(l):
+            if d[0] == 'stmt':
+                rv = d[3].rv
+                if rv.kind in ('bin', 'un'):
+                    out.add(('bin', rv.binop, d[3].line))
+                if rv.kind == 'cast' and rv.j.get('ck', '').startswith(('IntToInt', 'FloatToInt', 'IntToFloat')):
+                    out.add(('cast', rv.j.get('ty', '?'), d[3].line))
+                for x in rv.ops:
+                    work.append(x)
+                if rv.kind in ('ref', 'copyderef', 'rawptr', 'discr'):
+                    work.append(Operand({'c': {'l': rv.place.local, 'pr': [], 'own': []}}))
+                if rv.kind == 'agg' and rv.j.get('ak') == 'closure' and prog is not None and depth < 3 and rv.j.get('def') in prog.bodies:
+                    cb = prog.bodies[rv.j['def']]
+                    out |= calls_on_the_way(prog.an(cb), Operand({'c': {'l': 0, 'pr': [], 'own': []}}), limit, prog, depth + 1)
+            else:
+                t = d[3]
+                for n in t.callee_names():
+                    out.add(('call', strip_generics(n), t.line))
+                for a in t.args:
+                    if a.kind == 'const' and a.const.get('fn') and prog is not None:
+                        out.add(('call', strip_generics(a.const.get('rfn') or a.const['fn']), t.line))
+                for a in t.args:
+                    work.append(a)
+    return out
+
+
+def not_identity(steps):
+    bad = []
+    for k, n, line in sorted(steps, key=str):
+        if k == 'call' and n.startswith('<') and '>::' in n and ' as ' in n.rsplit('>::', 1)[0]:
+            # <T as Trait<U>>::method -> Trait::method
+            inner, meth = n.rsplit('>::', 1)
+            n = re.sub(r'<.*$', '', inner.split(' as ', 1)[1]) + '::' + meth
+        if k == 'call' and (n.endswith(IDENTITY_CALLS) or '::{closure#' in n):
+            continue
+        bad.append('%s %s (line %s)' % (k, n, line))
+    return sorted(set(bad))
 
 
 def run(ctx):
@@ -183,6 +244,9 @@ def run(ctx):
                             not any(x[0] == 'call' and x[1].endswith('Default>::default') for x in src)
                         ctx.ob('R19.2', '%s::%s.%s comes from the same-named field' % (short, lab, fname), ok, ctx.where(b, s.line), 'from %s' % sorted(got),
                                construct='from-field:%s:%s.%s' % (b.name, lab, fname))
+                        bad = not_identity(calls_on_the_way(an, op, prog=prog))
+                        ctx.ob('R19.2', '%s::%s.%s is carried across unchanged (identity conversions only)' % (short, lab, fname), not bad, ctx.where(b, s.line), 'passes through %s' % bad if bad else '',
+                               construct='from-value:%s:%s.%s' % (b.name, lab, fname))
         else:
             for blk, s in aggs:
                 for fname, op in zip(s.rv.j['fields'], s.rv.ops):
@@ -201,6 +265,9 @@ def run(ctx):
                     from_arg = any(x[0] == 'arg' for x in src) and not any(x[0] == 'call' and x[1].endswith('Default>::default') for x in src)
                     ok = fname in got and (from_arg or ctrl)
                     ctx.ob('R19.2', '%s.%s comes from the same-named field' % (short, fname), ok, ctx.where(b, s.line), 'from %s' % sorted(got), construct='from-field:%s:%s' % (b.name, fname))
+                    bad = not_identity(calls_on_the_way(an, op, prog=prog))
+                    ctx.ob('R19.2', '%s.%s is carried across unchanged (identity conversions only)' % (short, fname), not bad, ctx.where(b, s.line), 'passes through %s' % bad if bad else '',
+                           construct='from-value:%s:%s' % (b.name, fname))
             # nested enum matches inside (protocol): variant names preserved
             for blk in b.blocks:
                 t = blk.term
